@@ -34,7 +34,9 @@ func init() {
 			"every declared struct type of the zoo (41: recursive, mutually recursive, embedded, defined element types, empty, anonymous members, yaml tags, generics, arrays) under the full option matrix " +
 			"(UseAllExportedFields x ThrowErrorOnCycle x SchemaCustomizer none/identity/excluding x CreateComponentSchemas off/on/+TopLevel/+Generics x CreateTypeNameGenerator none/prefix/table = 144 sets); " +
 			"the zoo under 5 wrappers with random option sets; 40 embedded/tag/yaml shapes; then a seeded random stream of types " +
-			"(reflect.StructOf/SliceOf/MapOf/ArrayOf/PointerTo, depth <= 4, <= 4 fields, embedded structs and defined types, tag options, yaml tags, name clashes, map key kinds, references to the declared types) with random values and random option sets. " +
+			"(reflect.StructOf/SliceOf/MapOf/ArrayOf/PointerTo, depth <= 4, <= 4 fields, embedded structs and defined types, tag options, yaml tags, name clashes, map key kinds, references to the declared types) with random values and random option sets; " +
+			"histories on ONE generator (case field `pre`: types generated first with GenerateSchemaRef, then Generator.NewSchemaRefForValue): every declared struct after X, *X, []X, []*X, map X, X then *X, struct{P *X} for the declared structs X it refers to, under five option sets that cannot fail, " +
+			"and a random stream of random types after one to three of their own component types (bare, behind a pointer, in a slice). " +
 			"A case is non-trivial when the model reports at least one non-default branch (kind with bounds, pointer, cache hit, cycle cut, embedded, omitempty, untagged, exported component, option, ...).",
 		Exhaustive: true,
 		Gen:        genC18,
@@ -48,6 +50,7 @@ func init() {
 			"structs have at most 12 discovered fields (sort.Sort is an insertion sort, hence stable, up to that size)",
 			"a SchemaCustomizer is exercised through the three ways it can return (nil, ExcludeSchemaSentinel, another error), not through edits of the schema",
 			"type-name generators are injective on the declared names of a case (otherwise the case is outside the domain)",
+			"histories contain no failing call (no ThrowErrorOnCycle, no customizer): what a failed call leaves in the generator is not compared",
 			"generation runs on one goroutine (first-time concurrent use of one type changes where cycles are cut)",
 		},
 	})
@@ -1304,6 +1307,73 @@ func genC18(ctx *hx.Ctx, emit func(hx.Case)) {
 			}
 			emit(c18CaseO(t, v, r.Chance(35), o))
 		}
+	}
+	// 6. random histories on one generator
+	c18RandomHistories(ctx, emit)
+}
+
+// c18SubTypes: the type descriptions occurring inside d (d included), declared structs as `named`.
+func c18SubTypes(d obj, out *[]obj) {
+	if d == nil {
+		return
+	}
+	*out = append(*out, d)
+	switch d["k"] {
+	case "def":
+		c18SubTypes(asObj(d["u"]), out)
+	case "ptr", "slice", "map", "array":
+		c18SubTypes(asObj(d["e"]), out)
+	case "struct":
+		for _, f := range jlist(d["fields"]) {
+			c18SubTypes(asObj(asObj(f)["t"]), out)
+		}
+	}
+}
+
+// c18RandomHistories: random types under random option sets that cannot fail (no ThrowErrorOnCycle, no customizer), each
+// generated after a random history of one to three types taken from inside the type (bare, behind a pointer, in a slice).
+func c18RandomHistories(ctx *hx.Ctx, emit func(hx.Case)) {
+	r := ctx.Rng
+	n := 500
+	if ctx.Thorough() {
+		n = 8000
+	}
+	for i := 0; i < n; i++ {
+		o := c18RandOpts(r)
+		delete(o, "throw")
+		delete(o, "cust")
+		delete(o, "excl")
+		delete(o, "fail")
+		anon := !jbool(o, "export") || r.Chance(20)
+		t := c18RandType(r, 1+r.Intn(3), r.Chance(70) || !anon, anon)
+		decls := map[string]any{}
+		c18AddDecls(t, decls)
+		var subs []obj
+		c18SubTypes(t, &subs)
+		names := []string{}
+		for x := range decls {
+			names = append(names, x)
+		}
+		sort.Strings(names)
+		for _, x := range names {
+			subs = append(subs, named(x))
+		}
+		var pre []any
+		for k := 1 + r.Intn(3); k > 0; k-- {
+			p := subs[r.Intn(len(subs))]
+			switch r.Intn(4) {
+			case 0:
+				p = ptr(p)
+			case 1:
+				p = sl(p)
+			}
+			pre = append(pre, p)
+		}
+		v := c18Value(r, t, decls, 1+r.Intn(4))
+		if _, isNil := v["nil"]; isNil {
+			continue
+		}
+		emit(c18CaseP(t, v, r.Chance(35), o, pre))
 	}
 }
 
